@@ -7,7 +7,7 @@
    (params, weight); results that are `Some (vlift v)` are finite in every coordinate
    (never NaN / Inf). *)
 From Coq Require Import ZArith QArith List Permutation Bool.
-From FV Require Import Common.CMonoid Common.NanQ Common.QVec Common.WMean gen.Gen_tree_util
+From FV Require Import Common.CMonoid Common.NanQ Common.QVec Common.WMean gen.Gen_tree_util gen.Gen_aggregator
   Model.C07_Model Proofs.C07_Proofs.
 Import ListNotations.
 Local Open Scope Q_scope.
@@ -86,6 +86,12 @@ Theorem C07_result_fresh : forall s0 inputs, wf_store s0 -> inputs <> [] ->
              ~ In a (deleted (snd (own_tree_mean inputs s0)))).
 Proof. exact result_fresh. Qed.
 
+(* the translated tree_l2_squared is the sum of squares of all coordinates; tree_l2_norm is
+   jnp.sqrt of it (checked by the anchor), i.e. the n >= 0 with n * n = sumsq used below *)
+Theorem C07_l2_norm_is_sqrt_sumsq : forall n (x : list Q),
+  is_l2_norm n (vlift x) <-> (0 <= n /\ n * n == sumsq x).
+Proof. exact l2_norm_spec. Qed.
+
 (* clipping by global norm, bound c >= 0; n is the global norm of x (n >= 0, n*n = sum of
    squares): the result has squared norm at most c^2, is x itself when n <= c (the zero
    tree included), and is s*x with 0 <= s <= 1, s > 0 for c > 0, s = c/n above the bound *)
@@ -132,6 +138,7 @@ Print Assumptions C07_aggregator_is_tree_mean.
 Print Assumptions C07_single_pass.
 Print Assumptions C07_inputs_not_donated.
 Print Assumptions C07_result_fresh.
+Print Assumptions C07_l2_norm_is_sqrt_sumsq.
 Print Assumptions C07_clip_norm_le_bound.
 Print Assumptions C07_clip_identity_below_bound.
 Print Assumptions C07_clip_keeps_direction.
